@@ -72,5 +72,11 @@ Thousandths(s) ==
       fp == Digits(SubSeq(u, p + 1, Len(u)))
       v == NumVal(ip) * 1000 + NumVal(fp) * Pow10(3 - Len(fp))
   IN IF neg THEN 0 - v ELSE v
+\* number of digits after the decimal point of a DECIMAL
+FracLen(s) ==
+  LET dots == {k \in 1..Len(s) : s[k] = DOT}
+  IN IF dots = {} THEN 0 ELSE Len(Digits(SubSeq(s, (CHOOSE k \in dots : TRUE) + 1, Len(s))))
+\* the value can be given exactly in thousandths
+InThousandths(s) == \A k \in 1..4 : FracLen(Fields(s)[k]) <= 3 /\ Len(Digits(Fields(s)[k])) - FracLen(Fields(s)[k]) <= 5
 BoundsValue(s) == [k \in 1..4 |-> Thousandths(Fields(s)[k])]
 =============================================================================
